@@ -524,6 +524,21 @@ impl RawLexer {
             Ok(u) => u,
             Err(_) => return true, // unreachable because char_3 is ASCII
         };
+        // The two-hex-digit form `^^xy` (lowercase hex digits only) denotes the character with
+        // code 0xXY and takes precedence over the single character form (TeX.2021.352 and 355).
+        let hex_digit = |c: char| match c {
+            '0'..='9' | 'a'..='f' => c.to_digit(16),
+            _ => None,
+        };
+        let char_4 = self.current_line[self.pos + 1..].chars().next();
+        if let (Some(h_1), Some(h_2)) = (hex_digit(char_3), char_4.and_then(hex_digit)) {
+            let c = char::from_u32(16 * h_1 + h_2).unwrap();
+            self.current_line
+                .replace_range(self.pos..self.pos + 2, c.encode_utf8(&mut [0; 4]));
+            // Two source characters were replaced by one; the new character gets the second key.
+            self.trace_key_range.next();
+            return true;
+        }
         let m = match u {
             0x00..=0x3F => u + 0x40,
             0x40..=0x7F => u - 0x40,
